@@ -2,6 +2,9 @@
 // ThreadSanitizer models the C++ memory orders, so a weakened order or an unsynchronised access shows up as a report.
 // usage: k4_tsan <seed> <iterations> <mode>   mode 0: 2 writers + 2 readers growing a small table
 //                                             mode 1: updates of one key + rehash up/down + clear
+//                                             mode 2: every public lookup / update wrapper on a few hot keys of a table that
+//                                                     never resizes; values are pairs (a, a): a reader that sees a != b, or a
+//                                                     value handed out that was not read under the bucket lock, is a failure
 #include <atomic>
 #include <cstdint>
 #include <cstdio>
@@ -14,11 +17,62 @@
 using Tbl = libcuckoo::cuckoohash_map<uint64_t, uint64_t, std::hash<uint64_t>, std::equal_to<uint64_t>,
                                       std::allocator<std::pair<const uint64_t, uint64_t>>, 2>;
 
+struct PV {
+  uint64_t a = 0, b = 0;
+  PV() {}
+  PV(uint64_t x) : a(x), b(x) {}
+};
+using PTbl = libcuckoo::cuckoohash_map<uint64_t, PV, std::hash<uint64_t>, std::equal_to<uint64_t>,
+                                       std::allocator<std::pair<const uint64_t, PV>>, 2>;
+
+static long wrappers(uint64_t seed, long iters) {
+  std::atomic<long> bad{0};
+  for (int round = 0; round < 4; ++round) {
+    PTbl t(4096);
+    std::atomic<bool> go{false};
+    std::vector<std::thread> th;
+    auto rnd = [](uint64_t &s) { s ^= s << 13; s ^= s >> 7; s ^= s << 17; return s; };
+    for (int w = 0; w < 4; ++w)
+      th.emplace_back([&, w] {
+        uint64_t s = seed * 91 + w + 1 + round * 1000;
+        while (!go) {}
+        for (long i = 0; i < iters; ++i) {
+          uint64_t k = rnd(s) % 24, x = rnd(s);
+          auto chk = [&](const PV &v) { if (v.a != v.b) ++bad; };
+          switch (rnd(s) % 14) {
+          case 0: t.insert(k, PV(x)); break;
+          case 1: t.insert_or_assign(k, PV(x)); break;
+          case 2: t.update(k, PV(x)); break;
+          case 3: t.update_fn(k, [&](PV &v) { chk(v); v.a = x; v.b = x; }); break;
+          case 4: t.upsert(k, [&](PV &v) { chk(v); v.a = x; v.b = x; }, x); break;
+          case 5: t.upsert(k, [&](PV &v, libcuckoo::UpsertContext) { chk(v); v.a = x; v.b = x; }, x); break;
+          case 6: t.uprase_fn(k, [&](PV &v) { chk(v); v.a = x; v.b = x; return (x & 7) == 0; }, x); break;
+          case 7: t.erase_fn(k, [&](PV &v) { chk(v); v.a = x; v.b = x; return (x & 3) == 0; }); break;
+          case 8: t.erase(k); break;
+          case 9: { PV v; if (t.find(k, v)) chk(v); break; }
+          case 10: try { PV v = t.find(k); chk(v); } catch (std::out_of_range &) {} break;
+          case 11: t.find_fn(k, [&](const PV &v) { chk(v); }); break;
+          case 12: (void)t.contains(k); break;
+          default: { PV v; if (t.find(k, v)) chk(v); break; }
+          }
+        }
+      });
+    go = true;
+    for (auto &x : th) x.join();
+  }
+  return bad.load();
+}
+
 int main(int argc, char **argv) {
   uint64_t seed = argc > 1 ? strtoull(argv[1], 0, 10) : 1;
   long iters = argc > 2 ? atol(argv[2]) : 2000;
   int mode = argc > 3 ? atoi(argv[3]) : 0;
   long bad = 0;
+  if (mode == 2) {
+    bad = wrappers(seed, iters);
+    printf("done bad=%ld\n", bad);
+    return bad ? 1 : 0;
+  }
   for (int round = 0; round < 6; ++round) {
     Tbl t(4);
     t.minimum_load_factor(0);
